@@ -612,3 +612,4 @@ def cb1_callbacks_hold_no_reentrant_lock(ctx, rep):
             rep.check(list_lock not in may, R, "no-list-lock-in-on_notify", s.where, "on_notify runs without %s" % list_lock,
                       "on_notify runs while the reducer thread holds %s: a subscriber that subscribes or unsubscribes from its callback blocks the reducer thread forever" % list_lock)
     rep.floor(R, "callback sites on the reducer thread", n, 6)
+    rep.floor(R, "direct notify sites", len(ctx.revents(lambda l: l == "NOTIFY")), 1)
